@@ -282,6 +282,31 @@ func SetProp(ctx *Context, s State, id string, prop string, val interface{}) (st
 	return s.Add(ctx, "", fact)
 }
 
+// namesInDeleteWith reports whether the given fact lists the given id
+// in its deleteWith property.
+//
+// The dependents of an id are found with a pattern search for
+// {"deleteWith":[id]}.  An id that happens to look like a pattern
+// variable ("?x") matches every fact that has a deleteWith at all, so
+// what the search finds has to be checked before it is deleted.
+func namesInDeleteWith(fact map[string]interface{}, id string) bool {
+	switch vv := fact[KW_DeleteWith].(type) {
+	case []interface{}:
+		for _, x := range vv {
+			if s, ok := x.(string); ok && s == id {
+				return true
+			}
+		}
+	case []string:
+		for _, s := range vv {
+			if s == id {
+				return true
+			}
+		}
+	}
+	return false
+}
+
 // RemProp does what you'd think.
 //
 // The given id is the target id.
